@@ -478,10 +478,22 @@ class Engine:
             return Opt(self._join(a.args[0], b.args[0]))
         return self._join(a, b)
 
+    def refuse_total_dict(self, v, what):
+        if isinstance(v.loc, CellLoc) and v.loc.n in getattr(self, 'total_dicts', ()):
+            raise Unsupported(f'{what} on a defaultdict (modelled as a total map)')
+
     def materialize_empty(self, v, ty, st):
         """An empty list literal gets its element type on first use."""
         if v.ty.kind == 'Set' and v.ty.args and v.ty.args[0].kind == 'Bottom' and ty.kind == 'Set':
             return self.new_cell(st, ty, z3.K(sort_of(ty.args[0]), z3.BoolVal(False)))
+        if v.ty.kind == 'Dict' and v.ty.args and v.ty.args[0].kind == 'Bottom' and ty.kind == 'Dict' and \
+                isinstance(v.py, dict) and '__default__' in v.py:
+            if ty.args[1].kind != 'Int':
+                raise Unsupported('defaultdict(int) declared with a non-Int value type')
+            cell = self.new_cell(st, ty, T.dict_mk(ty, z3.K(sort_of(ty.args[0]), z3.BoolVal(True)),
+                                                   z3.K(sort_of(ty.args[0]), z3.IntVal(v.py['__default__']))))
+            self.total_dicts = getattr(self, 'total_dicts', set()) | {cell.loc.n}
+            return cell
         if v.ty.kind == 'Dict' and v.ty.args and v.ty.args[0].kind == 'Bottom' and ty.kind == 'Dict':
             return self.new_cell(st, ty, T.dict_mk(ty, z3.K(sort_of(ty.args[0]), z3.BoolVal(False)),
                                                    z3.K(sort_of(ty.args[0]), fresh(ty.args[1], 'dflt'))))
@@ -887,6 +899,7 @@ class Engine:
             xe = self.coerce(x, cont.ty.args[0], st)
             return T.Sel(self.load(cont, st), self.as_term(xe, st))
         if k == 'Dict':
+            self.refuse_total_dict(cont, 'membership test')
             xe = self.coerce(x, cont.ty.args[0], st)
             return T.Sel(T.dict_dom(cont.ty, self.load(cont, st)), self.as_term(xe, st))
         if k == 'ODict':
@@ -1225,4 +1238,4 @@ class Engine:
 
 BUILTINS = {'len', 'range', 'enumerate', 'zip', 'int', 'float', 'bool', 'isinstance', 'min', 'max', 'abs', 'sum',
             'sorted', 'list', 'tuple', 'set', 'dict', 'any', 'all', 'print', 'reversed', 'iter', 'frozenset', 'str',
-            'repr', 'round'}
+            'repr', 'round', 'defaultdict'}
